@@ -284,6 +284,15 @@ theorem factories_cover (e : Nat) (he : e < GrammarTables.nElems) (hs : schema.i
   · exact Or.inl h
   · exact Or.inr (excused_split h)
 
+/-- **C06 (islands)**: an element without an allowed_children row — in particular every element of
+    a foreign namespace, which is what the schema's `<anyName/>` islands contain — accepts any child,
+    as `islands_permit_anything` says the schema does. -/
+theorem rowless_parent_accepts (Tb : Tables) (chk : Bool) (p c : Nat) (h : allowedChildrenOf Tb p = none) :
+    addElement Tb chk p c = .ok () := by
+  unfold addElement
+  rw [h]
+  cases chk <;> rfl
+
 /-- **C06 (checks off)**: with `check_grammar=False`, `addElement`, `addText`, `addCDATA` and the
     constructor never refuse — for any tables. -/
 theorem unchecked_passes (Tb : Tables) (p c e : Nat) (given : List Nat) :
